@@ -79,6 +79,12 @@ def build_harness():
         tagged = False
         if rc2 != 0:
             raise BuildError('go-build', log + '\n--- without tag ---\n' + log2)
+    # C06: the race harness (needs cgo for -race); optional: absence is reported by the C06 check
+    race = os.path.join(WORK, 'bin', 'jvrace')
+    env = dict(GOENV, CGO_ENABLED='1')
+    rc3, log3 = sh(['go', 'build', '-race'] + (['-tags', 'verif'] if tagged else []) + ['-o', race, './cmd/jvrace'], cwd=os.path.join(VERIF, 'harness'), env=env)
+    if rc3 != 0 and os.path.exists(race):
+        os.remove(race)
     return out, tagged, log if not tagged else ''
 
 def newest(paths):
